@@ -636,7 +636,11 @@ def check_tuple(case):
 # ---------------------------------------------------------------------------
 
 RECV_SHAPES = ['s', 'c1', 'c2', 'c3', 'cc21', 'cl21']
-OTHER_SHAPES = ['s', 't', 'l1', 'l2', 'l3', 'n21', 'n12', 'c2', 'cc21']
+# No tuple operand: a tuple operand of a ChannelList operator is distributed
+# over the channels "as if it were a list" by design (docstring of list_binop,
+# pinned by tests/test_multichannel.py) -> not judged (don't-care).  Tuples
+# stay judged for constructors (family 'tuple').
+OTHER_SHAPES = ['s', 'l1', 'l2', 'l3', 'n21', 'n12', 'c2', 'cc21']
 
 
 def op_cases(inv, modes):
@@ -647,22 +651,11 @@ def op_cases(inv, modes):
     for name in inv['binary'] + inv['reflected']:
         for rs in RECV_SHAPES:
             for os_ in OTHER_SHAPES:
-                if rs == 's' and os_ in ('s', 't'):
+                if rs == 's' and os_ == 's':
                     continue       # no list anywhere: not this property
                 for mode in modes:
                     yield {'t': 'op', 'name': name, 'recv': rs, 'other': os_,
                            'mode': mode}
-
-
-def _has_plain_nested(spec, depth=0):
-    """A plain list nested inside a list (its container type after an
-    operator is applied is not decided by the law: the 'same call' on a plain
-    Python list receiver does not exist)."""
-    if spec[0] in ('l', 'c'):
-        if spec[0] == 'l' and depth > 0:
-            return True
-        return any(_has_plain_nested(x, depth + 1) for x in spec[1:])
-    return False
 
 
 def check_op(case):
@@ -681,13 +674,10 @@ def check_op(case):
     res = run_pair(table, lambda atoms: call(atoms, specs), tree, call)
     fam = 'op-unary' if case['other'] is None else 'op-binary'
     fam += '[ugen]' if case['recv'] == 's' else '[chanlist]'
-    relaxed = _has_plain_nested(recv)
-    dis, outcome = compare_pair(fam, res, relaxed)
-    if dis and case['other'] == 't':
-        dis = [('op-tuple-operand-zipped-with-channels',
-                [d[1] for d in dis][:1], [[d[0], d[2]] for d in dis][:2],
-                'a tuple operand of a ChannelList operator is distributed over '
-                'the channels like a list')]
+    # Operators: the container type of *nested* results (plain list vs
+    # ChannelList) is a don't-care everywhere (tests/test_multichannel.py pins
+    # the plain inner list); the top-level container type stays checked.
+    dis, outcome = compare_pair(fam, res, relaxed=True)
     return dis, mx.has_expansion(specs) and outcome[0] != 'undefined', \
         outcome
 
@@ -1119,18 +1109,6 @@ def replay(job):
             'outcome': repr(outcome)[:600]}
 
 
-def _pred_nested_plain_operand(v):
-    c = v['case']
-    return c.get('t') == 'op' and c.get('other') in ('n21', 'n12') and \
-        c.get('recv') != 's'
-
-
-def _pred_tuple_operand(v):
-    c = v['case']
-    return c.get('t') == 'op' and c.get('other') == 't' and \
-        c.get('recv') != 's'
-
-
 def _pred_nested_method_argument(v):
     c = v['case']
     return c.get('t') == 'meth' and \
@@ -1138,8 +1116,6 @@ def _pred_nested_method_argument(v):
 
 
 PREDICATES = {
-    'nested_plain_list_operand': _pred_nested_plain_operand,
-    'tuple_operand_of_channel_list_operator': _pred_tuple_operand,
     'nested_list_method_argument': _pred_nested_method_argument,
 }
 
@@ -1162,7 +1138,12 @@ def main(ctx):
         'a case whose single-channel call raises is not decided by the law '
         'and is accepted whatever the expanded call does',
         'control-rate output units: literal zero and silence are both '
-        'accepted']
+        'accepted',
+        'operators: a tuple operand of a ChannelList operator is not '
+        'enumerated (distributed like a list by design, pinned by the test '
+        'suite); inner containers of nested operator results are compared '
+        'up to list-vs-ChannelList, the top-level container must be a '
+        'ChannelList']
     inv = None
     for res in ctx.map('nrt', MODNAME, 'work_inventory', [{}]):
         inv = res['inventory']
@@ -1188,7 +1169,7 @@ def main(ctx):
     progenum.run(ctx, MODNAME, 'work_list',
                  [{'family': 'op', 'shard': i, 'of': 32, 'modes': omodes}
                   for i in range(32)],
-                 bound='op: every operator x 6 receiver shapes x 9 operand '
+                 bound='op: every operator x 6 receiver shapes x 8 operand '
                        'shapes, operand atom modes ' + '/'.join(omodes))
     mmodes = ['n', 'u', 'm'] if thorough else ['m']
     progenum.run(ctx, MODNAME, 'work_list',
